@@ -32,7 +32,30 @@ Pick(seq, x) == seq[(x % Len(seq)) + 1]
 (* ------------------------------------------------------------------------ *)
 (* Evaluate lists                                                           *)
 (* ------------------------------------------------------------------------ *)
-ShapeValue ==
+(* Unsupported and nil values are generated systematically: the offending    *)
+(* leaf sits First, in the Middle or Last among two valid siblings, at        *)
+(* nesting depth 1..3 (the path names the position at every level, outermost  *)
+(* first), so the recursive validation is exercised at every position and not *)
+(* only at the end of a collection.  Ids: "bad-FML", "nil-M", ...             *)
+Letters == <<"F", "M", "L">>
+PathSeq ==
+  [k \in 1..3 |-> <<Letters[k]>>]
+  \o [k \in 1..9 |-> <<Letters[((k - 1) \div 3) + 1], Letters[((k - 1) % 3) + 1]>>]
+  \o [k \in 1..27 |-> <<Letters[((k - 1) \div 9) + 1], Letters[(((k - 1) \div 3) % 3) + 1], Letters[((k - 1) % 3) + 1]>>]
+RECURSIVE PathStr(_)
+PathStr(p) == IF Len(p) = 0 THEN "" ELSE Head(p) \o PathStr(Tail(p))
+Good1 == VLeaf(I(1))
+Good2 == VLeaf(S(<<103>>))
+Wrap(inner, pos) ==
+  CASE pos = "F" -> VColl(<<inner, Good1, Good2>>)
+    [] pos = "M" -> VColl(<<Good1, inner, Good2>>)
+    [] pos = "L" -> VColl(<<Good1, Good2, inner>>)
+RECURSIVE Build(_, _)
+Build(leaf, p) == IF Len(p) = 0 THEN leaf ELSE Wrap(Build(leaf, Tail(p)), Head(p))
+BadShapes == <<"badTop">> \o [k \in 1..Len(PathSeq) |-> "bad-" \o PathStr(PathSeq[k])]
+NilShapes == <<"nilTop">> \o [k \in 1..Len(PathSeq) |-> "nil-" \o PathStr(PathSeq[k])]
+
+FixedShapes ==
   [int      |-> VLeaf(I(7)),
    str      |-> VLeaf(S(<<97, 98>>)),
    bool     |-> VLeaf(B(TRUE)),
@@ -42,11 +65,13 @@ ShapeValue ==
    elem     |-> VLeaf(NameEl(1)),
    detached |-> VLeaf(Detached),
    mixed    |-> VColl(<<VLeaf(NameEl(2)), VLeaf(I(3)), VLeaf(Family1)>>),
-   badIn1   |-> VColl(<<VLeaf(I(1)), VBad>>),
-   badIn2   |-> VColl(<<VLeaf(I(1)), VColl(<<VLeaf(S(<<120>>)), VBad>>)>>),
    badTop   |-> VBad,
-   nilTop   |-> VNil,
-   nilIn    |-> VColl(<<VLeaf(I(1)), VNil>>)]
+   nilTop   |-> VNil]
+GenShapes ==
+  [id \in {BadShapes[k] : k \in 2..Len(BadShapes)} \cup {NilShapes[k] : k \in 2..Len(NilShapes)} |->
+     LET k == CHOOSE k \in 1..Len(PathSeq) : BadShapes[k + 1] = id \/ NilShapes[k + 1] = id
+     IN Build(IF BadShapes[k + 1] = id THEN VBad ELSE VNil, PathSeq[k])]
+ShapeValue == FixedShapes @@ GenShapes
 
 (* the valid value supplied at position j of a list of length L: every shape occurs in a list whose options all succeed *)
 ValidAt == << <<"int">>,
@@ -54,8 +79,6 @@ ValidAt == << <<"int">>,
               <<"empty", "str", "mixed">>,
               <<"detached", "bool", "one", "elem">>,
               <<"one", "empty", "strs", "bool", "mixed">> >>
-BadShapes   == <<"badIn1", "badIn2", "badTop">>
-NilShapes   == <<"nilTop", "nilIn">>
 
 EKinds == {"valid", "dup", "predef", "unsup", "nil"}
 EAbbrev == [valid |-> "v", dup |-> "d", predef |-> "p", unsup |-> "u", nil |-> "n"]
@@ -68,13 +91,18 @@ EName(ks, j) ==
     [] ks[j] = "unsup"  -> "u" \o ToString(j)
     [] ks[j] = "nil"    -> "n" \o ToString(j)
 
+(* a number that identifies the list, used to rotate through the bad shapes *)
+KIdx == [valid |-> 0, dup |-> 1, predef |-> 2, unsup |-> 3, nil |-> 4]
+RECURSIVE Rank(_, _)
+Rank(ks, h) == IF h > Len(ks) THEN 0 ELSE KIdx[ks[h]] + 5 * Rank(ks, h + 1)
+
 EShape(ks, j) ==
   LET L == Len(ks)
   IN CASE ks[j] = "valid"  -> ValidAt[L][j]
        [] ks[j] = "dup"    -> ValidAt[L][(j % L) + 1]      \* another position's value, so an overwrite would show
        [] ks[j] = "predef" -> ValidAt[L][j]
-       [] ks[j] = "unsup"  -> Pick(BadShapes, j + L)
-       [] ks[j] = "nil"    -> Pick(NilShapes, j + L)
+       [] ks[j] = "unsup"  -> Pick(BadShapes, Rank(ks, 1) + j)
+       [] ks[j] = "nil"    -> Pick(NilShapes, Rank(ks, 1) + j)
 
 EOpts(ks) == [j \in 1..Len(ks) |-> [name |-> EName(ks, j), shape |-> EShape(ks, j)]]
 EConc(o)  == [name |-> o.name, val |-> ShapeValue[o.shape]]
